@@ -82,11 +82,14 @@ def run_case(desc):
             mods = list(last.get(a, {}))
             # (apps are upgraded independently in the schedules: no other
             # app may refer to these models at any version)
+            # (and none of the models refers to another one of the app or to
+            # itself: deleting such models one by one is a C01 / C15 matter)
+            # (a relation that existed at any version would be regrouped
+            # behind the DeleteModel when the evolutions are batched,
+            # KF-C03-M2-DELETEMODEL-IN-BATCH)
             if mods and not any(
-                    r[0] != a for sp in h.specs for m in sp.get(a, {})
-                    for r in E.referrers(sp, a, m)) and not any(
-                    (r[0], r[1]) != (a, m) for m in mods
-                    for r in E.referrers(last, a, m)):
+                    E.referrers(sp, a, m) for sp in h.specs
+                    for m in sp.get(a, {})):
                 cands.append(a)
         if cands:
             a = rng.choice(cands)
